@@ -271,6 +271,9 @@ def TriNeedsI32 (t : Tri) (style : TriStyle) : Prop :=
     (2 ≤ style.strokeWidth ∧ style.strokeAlignment = .inside ∧
       t.sortedClockwise.isCollapsed style.strokeWidth .right ≠ some true)
 
+instance (t : Tri) (style : TriStyle) : Decidable (TriNeedsI32 t style) := by
+  unfold TriNeedsI32; exact inferInstance
+
 theorem vertexBox_top (t : Tri) :
     t.boundingBox.tl.y = min (min t.sortedClockwise.v1.y t.sortedClockwise.v2.y) t.sortedClockwise.v3.y ∧
     t.boundingBox.tl.y ≤ max (max t.sortedClockwise.v1.y t.sortedClockwise.v2.y) t.sortedClockwise.v3.y := by
